@@ -206,6 +206,54 @@ fn instantiate(row: &Row, ca: &str, with_opt: bool) -> Vec<String> {
     out
 }
 
+/// Does the request fit the row (method and path pattern)? Returns a score (number of literal
+/// segments) so that the most specific row wins over catch-all rows.
+fn fit_score(row: &Row, method: &str, segs: &[&str]) -> Option<usize> {
+    if row.method != method {
+        return None;
+    }
+    let mut score = 0;
+    let mut i = 0;
+    for (k, s) in row.segs.iter().enumerate() {
+        match s {
+            Seg::Rest => return Some(score),
+            Seg::Opt(_) => {
+                return if segs.len() <= row.segs.len() && segs.len() >= k { Some(score) } else { None };
+            }
+            Seg::Lit(l) => {
+                if segs.get(i) != Some(&l.as_str()) {
+                    return None;
+                }
+                score += 2;
+            }
+            Seg::Param(_) => {
+                if segs.get(i).map(|x| x.is_empty()).unwrap_or(true) {
+                    return None;
+                }
+                score += 1;
+            }
+            Seg::Bogus => {
+                if segs.get(i).is_none() {
+                    return None;
+                }
+            }
+        }
+        i += 1;
+    }
+    if i == segs.len() { Some(score) } else { None }
+}
+
+/// The row a recorded request belongs to in the *current* table (row numbers shift when the
+/// dispatch code changes).
+fn resolve_row(rows: &[Row], idx: usize, method: &str, segs: &[&str]) -> Option<usize> {
+    if let Some(r) = rows.get(idx) {
+        if fit_score(r, method, segs).is_some() {
+            return Some(idx);
+        }
+    }
+    rows.iter().filter_map(|r| fit_score(r, method, segs).map(|s| (s, r.idx))).max_by_key(|x| (x.0, std::cmp::Reverse(x.1))).map(|x| x.1)
+}
+
 fn uses_ca(row: &Row) -> bool {
     row.gates.iter().any(|g| g.1.starts_with("seg:"))
         || row.segs.iter().enumerate().any(|(i, s)| matches!(s, Seg::Param(n) if n == "handle" && i == 3))
@@ -880,6 +928,18 @@ impl<'a> Runner<'a> {
     fn exec_req(&mut self, op: &str, w: &[&str]) {
         self.nreq += 1;
         let idx: usize = w[1].parse().expect("row index");
+        let segs = kv(w, "segs").unwrap_or("-");
+        let seg_list0: Vec<&str> = if segs == "-" { Vec::new() } else { segs.split('/').collect() };
+        let idx = resolve_row(self.rows, idx, w[2], &seg_list0).unwrap_or(idx);
+        // observations of an earlier run that sit in front of `=>` are dropped, the row number is the current one
+        let op_owned: String = w
+            .iter()
+            .enumerate()
+            .filter(|(_, x)| !x.starts_with("all="))
+            .map(|(i, x)| if i == 1 { idx.to_string() } else { x.to_string() })
+            .collect::<Vec<_>>()
+            .join(" ");
+        let op: &str = &op_owned;
         let row = match self.rows.get(idx) {
             Some(r) => r.clone(),
             None => {
@@ -888,7 +948,6 @@ impl<'a> Runner<'a> {
             }
         };
         let method = if w[2] == "OTHER" { "PUT" } else { w[2] };
-        let segs = kv(w, "segs").unwrap_or("-");
         let path = if segs == "-" { "/".to_string() } else { format!("/{segs}") };
         let trs = kv(w, "tr").unwrap_or("unix");
         let tr = if trs == "tcp" {
